@@ -8,9 +8,9 @@ import Gtree.Lemmas.ParseDoc
    * a format error names a row of the input;
    * decision lemmas: rows of the malformation classes "no bullet", "empty item text", "nested more than
      one level deeper", "item before the first root" are rejected.
+   * class M3 "indentation not a whole multiple of the unit" likewise (`C02_not_multiple_rejected`).
   Not proved (stated in DESIGN.md): the full "error iff some row is malformed" with a declarative
-  `Malformed` predicate; the class "indentation not a multiple of the unit / mixed tabs and spaces" is
-  covered by the correspondence suite only.
+  `Malformed` predicate; "mixed tabs and spaces" is covered by the correspondence suite only.
 -/
 namespace Gtree
 
@@ -296,6 +296,27 @@ theorem C02_empty_text_rejected (s : Spelling) (g : GState) (i k : Nat)
   rw [parse_list g.p _ (isBlank_indent_symbol s.c (s.bullet i) hc hb' _ _) (head_listRow s.c (s.bullet i) _ _ hc hb)]
   rw [separateRow_row g.p s.c (s.bullet i) (k * s.unit) [] hc hb hsep hsp]
   simp [trimPrefixB]
+
+end Gtree
+
+namespace Gtree
+
+/-- M3 — a list row whose indentation is not a whole multiple of the unit the parser has learnt is
+    rejected, naming the row — whatever its bullet symbol and whatever other symbols its text contains -/
+theorem C02_not_multiple_rejected (g : GState) (c b : UInt8) (m : Nat) (name : Bytes)
+    (hc : c = sp ∨ c = tab) (hb : b = hy ∨ b = ast ∨ b = pls)
+    (hsep : g.p.sep = none ∨ g.p.sep = some c) (hu : 2 ≤ g.p.spaces) (hmod : m % g.p.spaces ≠ 0) :
+    genStep g (List.replicate m c ++ b :: sp :: name) = .error (.format (List.replicate m c ++ b :: sp :: name)) := by
+  have hb' : b = hy ∨ b = ast ∨ b = pls ∨ b = shp := by rcases hb with h | h | h <;> simp [h]
+  have hnone := separateRow_not_multiple g.p c b m name hc hb hsep hu hmod
+  unfold genStep
+  rw [parse_list g.p _ (isBlank_indent_symbol c b hc hb' m _) (head_listRow c b m _ hc hb)]
+  cases hs : separateRow g.p (List.replicate m c ++ b :: sp :: name) with
+  | mk st' r =>
+    rw [hs] at hnone
+    simp only at hnone
+    subst hnone
+    rfl
 
 end Gtree
 
